@@ -1,6 +1,7 @@
 package rules
 
 import (
+	"go/ast"
 	"go/constant"
 	"go/token"
 	"sort"
@@ -118,6 +119,9 @@ type implModel struct {
 type eofRule struct {
 	atoms  []absint.Atom
 	action string // "accept", "emit:<Lex>", "reject"
+	// queued: lexemes the end-of-input branch puts into the pending list (found(...)) before it
+	// returns; the following calls of Next emit them after the returned one
+	queued []string
 }
 
 func (im *implModel) leaf(cfg *implCfg, atEOF bool) func(absint.Sym) constant.Value {
@@ -342,6 +346,7 @@ func (im *implModel) acceptsEOF(cfg implCfg) (bool, string) {
 	}
 	for i := 0; i < 8; i++ {
 		var act string
+		var queued []string
 		n := 0
 		for _, r := range im.eof {
 			ok := true
@@ -357,6 +362,7 @@ func (im *implModel) acceptsEOF(cfg implCfg) (bool, string) {
 			}
 			if ok {
 				act = r.action
+				queued = r.queued
 				n++
 			}
 		}
@@ -369,7 +375,7 @@ func (im *implModel) acceptsEOF(cfg implCfg) (bool, string) {
 		case act == "reject":
 			return false, ""
 		case strings.HasPrefix(act, "emit:"):
-			if !im.applyFinds(&cfg, []string{strings.TrimPrefix(act, "emit:")}) {
+			if !im.applyFinds(&cfg, append([]string{strings.TrimPrefix(act, "emit:")}, queued...)) {
 				return false, ""
 			}
 		}
@@ -386,6 +392,37 @@ func extractEOF(c *core.Ctx, R string, m *scanModel, pkgRel, recv string) ([]eof
 	}
 	in := absint.New(absint.Config{InModule: c.P.FuncInModule, Inline: func(f *ssa.Function) bool { return f.Name() == "processTail" }, SelfBases: map[string]bool{"s": true}})
 	outs := in.Run(next, []absint.Val{absint.Ptr{Base: "s"}}, nil)
+	// lexemes a case of the end-of-input switch puts into the pending list (s.found(K)) before it
+	// returns processingFoundLexeme(L): the following calls of Next emit them after L
+	queuedByEmit := map[string][]string{}
+	for _, fnName := range []string{"Next", "processTail"} {
+		d := c.P.FindDecl("(*" + pkgRel + "." + recv + ")." + fnName)
+		if d == nil {
+			continue
+		}
+		ast.Inspect(d.Decl.Body, func(n ast.Node) bool {
+			cc, ok := n.(*ast.CaseClause)
+			if !ok {
+				return true
+			}
+			var pending []string
+			for _, st := range cc.Body {
+				switch x := st.(type) {
+				case *ast.ExprStmt:
+					if call, ok := x.X.(*ast.CallExpr); ok && strings.HasSuffix(core.ExprStr(call.Fun), ".found") && len(call.Args) == 1 {
+						pending = append(pending, core.ConstName(d.Pkg, call.Args[0]))
+					}
+				case *ast.ReturnStmt:
+					if len(x.Results) >= 1 && len(pending) > 0 {
+						if call, ok := x.Results[0].(*ast.CallExpr); ok && strings.HasSuffix(core.ExprStr(call.Fun), ".processingFoundLexeme") && len(call.Args) == 1 {
+							queuedByEmit[core.ConstName(d.Pkg, call.Args[0])] = pending
+						}
+					}
+				}
+			}
+			return true
+		})
+	}
 	var rules []eofRule
 	for _, o := range outs {
 		// keep only paths taken when no lexeme is pending and the input is exhausted
@@ -423,6 +460,7 @@ func extractEOF(c *core.Ctx, R string, m *scanModel, pkgRel, recv string) ([]eof
 			continue
 		}
 		r := eofRule{atoms: atoms}
+
 		switch o.Kind {
 		case "panic":
 			r.action = "reject"
@@ -449,6 +487,9 @@ func extractEOF(c *core.Ctx, R string, m *scanModel, pkgRel, recv string) ([]eof
 			} else {
 				r.action = "reject"
 			}
+		}
+		if strings.HasPrefix(r.action, "emit:") {
+			r.queued = queuedByEmit[strings.TrimPrefix(r.action, "emit:")]
 		}
 		rules = append(rules, r)
 	}
